@@ -31,7 +31,9 @@ fn component_toml(id: &str) -> String {
 /// leaves alternate between libcnb.rs buildpacks and composites without dependencies.
 fn write_workspace(root: &Path, deps: &BTreeMap<String, Vec<String>>, extra_dep: Option<(&str, &str)>) {
     for (i, (n, ds)) in deps.iter().enumerate() {
-        let dir = root.join(if i % 2 == 0 { format!("buildpacks/{n}") } else { format!("nested/deeper/{n}") });
+        // (every fourth buildpack lives inside the directory of the first one: a buildpack directory is searched too)
+        let first = deps.keys().next().unwrap();
+        let dir = root.join(if i % 4 == 1 { format!("buildpacks/{first}/components/{n}") } else if i % 2 == 0 { format!("buildpacks/{n}") } else { format!("nested/deeper/{n}") });
         if i % 3 == 2 {
             // this buildpack lives outside the workspace tree and is linked into it: a directory all the same
             let real = root.parent().unwrap().join("shared").join(n);
